@@ -147,7 +147,7 @@ CHECK = {
     "property": "C25",
     "props": "Props/C25.v",
     "theorems": ["c25_stack_eq_expand", "c25_terminates", "c25_depth", "c25_context_scoping",
-                 "c25_iter_stack_eq_expand", "c25_iter_depth", "c25_full_stack_eq_expand", "c25_full_total_valid",
+                 "c25_iter_stack_eq_expand", "c25_iter_depth", "c25_lines_are_iter", "c25_full_stack_eq_expand", "c25_full_total_valid",
                  "c25_full_include_boundary"],
     "allowed_axioms": [],
     "suites": [{
@@ -184,12 +184,16 @@ CHECK = {
     "trusted_base": [
         "Coq 8.16.1 kernel; axioms: none",
         "extraction: ExtrOcamlBasic only; OCaml 4.13.1",
-        "the per-file line parser is a parameter of the theorems; the correspondence instantiates it with Model/ZfMini.v for a "
-        "sub-language only (tokenisation at blanks in ocaml/run_c25.ml); the real record parser is C23/C24's subject",
+        "suite zoneinc: the per-file line parser is a parameter of the first-wave theorems and is instantiated with Model/ZfMini.v for a "
+        "sub-language (tokenisation at blanks in ocaml/run_c25.ml); suite zonefull: the per-file parser is the full zone-file parser model "
+        "of C24 (Model/ZfReader.v, ZfParser.v, ZfStd.v: its correspondence to the code is C24's and this suite's differential run, not a proof)",
+        "checks/incgen.py + checks/zfgen.py as an independent statement of what a rendered tree denotes (third opinion on predictable trees)",
+        "I/O errors while reading are not modelled: an $INCLUDE naming a directory (open succeeds, read fails) is accepted only in exactly that shape (io_gap)",
         "path semantics of the OS (the driver resolves `..` lexically before looking a path up in the generated tree); "
         "Path::parent/join modelled for paths without empty or `.` components",
     ],
-    "assumptions": ["every file is a finite list of logical lines"],
+    "assumptions": ["every file is a finite octet string (zonefull) / a finite list of logical lines (zoneinc)",
+                    "every file that can be opened has a parent directory (the assumption stated in compute_path's doc comment)"],
 }
 
 MANIFEST = {
@@ -197,9 +201,16 @@ MANIFEST = {
                    "file: iterating the model of fs::Parser::next yields exactly the structural expansion — each $INCLUDE replaced in "
                    "place by the included file started with the includer's context (or the directive's origin), the includer's origin "
                    "restored afterwards — up to its first error; the iteration terminates; an $INCLUDE at the nesting limit is "
-                   "IncludesTooDeep at that line with the include chain. Tied to the code by random file trees parsed by the real "
-                   "zone_file::fs::Parser."),
-    "level_note": "Proof of the stack machine against the structural spec; the line parser is abstract (sub-language instance in the run); OS path resolution trusted.",
+                   "IncludesTooDeep at that line with the include chain. The same for the machine whose stack entries own a stateful per-file "
+                   "iterator (as in the Rust code), and for its instance with the FULL zone-file parser model of C24: run = structural expansion "
+                   "with no fuel/budget hypothesis left, never a panic, every record yielded through any nesting of includes valid (C24 across "
+                   "include boundaries), and the explicit form of what crosses an include boundary (the included file inherits previous "
+                   "owner/TTL/class/default TTL and gets the directive's origin; the includer gets back its own origin and reader and the "
+                   "included file's previous owner/TTL/class/default TTL). Tied to the code by random trees of real zone files parsed by the "
+                   "real zone_file::fs::Parser, compared record by record, and with the plain parser on the flattened text."),
+    "level_note": ("Proof of the stack machine against the structural spec, generic and for the full parser model; the literal flattened-text form "
+                   "of the property is checked (real and model parsers on generated flattened texts), not proved. OS path resolution and read "
+                   "errors trusted/not modelled."),
     "technique": "machine-checked proof in Coq (continuation-style simulation, induction on depth budget and lines) + file-tree correspondence",
     "design_ref": "DESIGN.md §4 C25",
 }
